@@ -7,15 +7,19 @@ from .c02 import C
 def run(ctx):
     quick = ctx.tier == 'quick'
     jobs = []
-    hs = [s for s in corpus.specs(tag='hist') if s.name in (('h_words', 'h_nl') if quick else ('h_words', 'h_nl', 'h_sc'))]
+    hs = [s for s in corpus.specs(tag='hist') if s.name in (('h_words', 'h_min') if quick else ('h_words', 'h_nl', 'h_sc', 'h_min'))]
     hs = common.select(ctx, hs)
     cfgs = [C('Cem')] if quick else [C('Cem'), C('B', ['-B']), C('array', options=['array', 'yylmax=16']), C('r', api='r'), C('Cfe', ['-Cfe'])]
     for s in hs:
         for c in cfgs:
             for mode in ('less', 'unput', 'input', 'more'):
-                if quick and (mode == 'more' or (s.name == 'h_nl' and mode == 'input')):
+                # quick: yyinput/yyunput are decided as units (G2) and yymore by the inductive step (E3 more) below;
+                # the whole-yylex edit obligations keep yyless and one yyunput/yyinput family
+                if quick and (mode == 'more' or (s.name == 'h_min' and mode != 'less')):
                     continue
-                lens = ([2, 3] if s.name == 'h_words' else [2]) if quick else ([1, 2, 3, 4] if mode != 'more' else [2, 3])
+                if s.name == 'h_words' and mode == 'more':
+                    continue      # every token of h_words is a maximal [a-c]+ run: a second token is always the default rule
+                lens = ([3] if mode == 'input' else [2, 3]) if quick else ([1, 2, 3, 4] if mode != 'more' else [2, 3, 4])
                 js, g = E.e4_jobs(ctx, s, c, mode, lens, maxnul=(1 if (mode == 'input' or not quick) else 0), timeout=(300 if quick else 1800),
                                   mem_mb=(10000 if quick else 24000),
                                   witness_len=(3 if (mode == 'less' and c.name == 'Cem' and s.name == 'h_words') else None))
@@ -37,7 +41,17 @@ def run(ctx):
                     common.gen_ok(ctx, g, s, c, 'G2')
                     continue
                 jobs += js
-    jobs.sort(key=lambda j: (0 if j.meta.get('engine') == 'G2' else 1, j.name))
+    # yymore() across refills: inductive yylex step whose pre-state carries a yymore() prefix (pointer and %array)
+    for s in common.select(ctx, corpus.specs(names=['h_min'] if quick else ['h_min', 'h_words', 'backup'])):
+        for c in [C('Cem'), C('array', options=['array', 'yylmax=16'])] + ([] if quick else [C('r', api='r')]):
+            for (bs, m) in ([(2, 1)] if quick else [(2, 1), (3, 1), (3, 2)]):
+                js, g = E.e3w_jobs(ctx, s, c, bs, m, maxnul=(0 if quick else 1), witness=(c.name == 'Cem' and (bs, m) == (2, 1)),
+                                   timeout=(280 if quick else 1800), mem_mb=(10000 if quick else 24000), more=True)
+                if not g.ok:
+                    common.gen_ok(ctx, g, s, c, 'E3 more')
+                    continue
+                jobs += js
+    jobs.sort(key=lambda j: (0 if j.meta.get('engine') == 'G2' else 1 if j.meta.get('engine') == 'E3' else 2, j.name))
     ctx.run_cbmc(jobs)
     common.std_assumptions(ctx)
     ctx.assume('one edit per action; after the step the unread input of the scanner is asserted to be exactly the edited stream, the state from which the first-token obligations (C01) apply to the next call')
